@@ -26,14 +26,14 @@ structure UnquotedOk (a : Bytes) : Prop where
   nocmt : NoCmt a
 
 /-- the argument of a statement as the printer can reproduce it: absent; unquoted (flags 0) and able to stand without
-    quotes; double-quoted without CR and without a blank before a newline; single-quoted without a newline -/
+    quotes; double-quoted without CR; single-quoted -/
 def ArgOk (kw : Bytes) (arg : Option Bytes) (flags : Nat) (leaf : Bool) : Prop :=
   match arg with
   | none => flags = 0 ∧ (leaf = true → KwBareOk kw)
   | some a =>
     (flags = 0 ∧ UnquotedOk a) ∨
-    (flags = LYS_DOUBLEQUOTED ∧ isYangText a = true ∧ 13 ∉ a ∧ ¬ [32, 10] <:+: a) ∨
-    (flags = LYS_SINGLEQUOTED ∧ isYangText a = true ∧ 10 ∉ a)
+    (flags = LYS_DOUBLEQUOTED ∧ isYangText a = true ∧ 13 ∉ a) ∨
+    (flags = LYS_SINGLEQUOTED ∧ isYangText a = true)
 
 mutual
 def WfStmt : Stmt → Prop
@@ -65,10 +65,10 @@ def kwOf : Stmt → Bytes
   | .mk kw _ _ _ => kw
 
 /-- what `yprp_stmt` prints between the keyword and the `;` / ` {` -/
-def argText (fmt : Bool) (l : Nat) (arg : Option Bytes) (flags : Nat) : Bytes :=
+def argText (fmt : Bool) (l nameLen : Nat) (arg : Option Bytes) (flags : Nat) : Bytes :=
   match arg with
   | some a =>
-    if flags != 0 then printTextArg fmt l (if flags &&& LYS_SINGLEQUOTED != 0 then LYS_YPR_TEXT_SINGLEQUOTED else 0) a
+    if flags != 0 then printTextArg fmt l (if flags &&& LYS_SINGLEQUOTED != 0 then LYS_YPR_TEXT_SINGLEQUOTED else 0) nameLen a
     else 32 :: a
   | none => []
 
@@ -76,8 +76,8 @@ def argText (fmt : Bool) (l : Nat) (arg : Option Bytes) (flags : Nat) : Bytes :=
     and `rest` -/
 def afterKw (fmt : Bool) (l : Nat) (s : Stmt) (rest : Bytes) : Bytes :=
   match s with
-  | .mk _ arg flags kids =>
-    argText fmt l arg flags ++
+  | .mk kw arg flags kids =>
+    argText fmt l kw.length arg flags ++
       (if kids.isEmpty then 59 :: 10 :: rest
        else 32 :: 123 :: 10 :: (printStmts fmt (incLevel l) kids ++ (indentOf fmt l ++ 125 :: 10 :: rest)))
 
@@ -119,7 +119,7 @@ theorem TailOk.restOk {t0 : Bytes} (h : TailOk t0) : RestOk t0 := by
 /-- `get_argument` over the argument part printed by `yprp_stmt`, followed by `k ≤ 1` blanks and `;` / `{` -/
 theorem arg_parse (fmt : Bool) (l ind k : Nat) (kw : Bytes) (arg : Option Bytes) (flags : Nat) (leaf : Bool) (t0 : Bytes)
     (hk : (k = 0 ∧ ∃ r, t0 = 59 :: r) ∨ (k = 1 ∧ ∃ r, t0 = 123 :: r)) (hok : ArgOk kw arg flags leaf) :
-    ∃ i1 j, getArgument true ind (argText fmt l arg flags ++ (spaces k ++ t0)) =
+    ∃ i1 j, getArgument true ind (argText fmt l kw.length arg flags ++ (spaces k ++ t0)) =
       .ok { word := arg, flags := flags, ind := i1, rest := spaces j ++ t0 } := by
   have htail : TailOk t0 := by
     rcases hk with ⟨_, r, rfl⟩ | ⟨_, r, rfl⟩
@@ -133,11 +133,11 @@ theorem arg_parse (fmt : Bool) (l ind k : Nat) (kw : Bytes) (arg : Option Bytes)
     · exact ⟨ind, 0, by simp [argText, spaces, getArgument, getArgLoop, argDone]⟩
     · exact ⟨ind + 1, 0, by simp [argText, spaces, getArgument, getArgLoop, argDone]⟩
   | some a =>
-    rcases hok with ⟨hf, hu⟩ | ⟨hf, hy, hcr, hsn⟩ | ⟨hf, hy, hnl⟩
+    rcases hok with ⟨hf, hu⟩ | ⟨hf, hy, hcr⟩ | ⟨hf, hy⟩
     · -- unquoted
       subst hf
       have hya := ychars_of_isYangText a hu.text
-      have harg : argText fmt l (some a) 0 ++ (spaces k ++ t0) = 32 :: (a ++ (spaces k ++ t0)) := by simp [argText]
+      have harg : argText fmt l kw.length (some a) 0 ++ (spaces k ++ t0) = 32 :: (a ++ (spaces k ++ t0)) := by simp [argText]
       rw [harg]
       rcases hk with ⟨rfl, r, rfl⟩ | ⟨rfl, r, rfl⟩
       · obtain ⟨i1, e⟩ := getArgLoop_unquoted true a hya hu.plain 59 (Or.inl rfl) (NoCmt_snoc a 59 hu.nocmt (by decide) (by decide))
@@ -155,18 +155,18 @@ theorem arg_parse (fmt : Bool) (l ind k : Nat) (kw : Bytes) (arg : Option Bytes)
         simp
     · -- double-quoted (block style)
       subst hf
-      have harg : argText fmt l (some a) LYS_DOUBLEQUOTED = printTextArg fmt l 0 a := by
+      have harg : argText fmt l kw.length (some a) LYS_DOUBLEQUOTED = printTextArg fmt l 0 kw.length a := by
         simp [argText, LYS_DOUBLEQUOTED, LYS_SINGLEQUOTED]
       rw [harg]
-      obtain ⟨i1, e⟩ := text_dq_getArgument true fmt l 0 ind a t0 (by decide) (ychars_of_isYangText a hy) hcr
-        (noSpNl_of_not_infix a hsn) (fun h => absurd h (by decide)) (fun h => absurd h (by decide)) htail.restOk k
+      obtain ⟨i1, e⟩ := text_dq_getArgument true fmt l 0 kw.length ind a t0 (by decide) (ychars_of_isYangText a hy) hcr
+        (fun h => absurd h (by decide)) htail.restOk k
       exact ⟨i1, 0, by rw [e]; simp [spaces]⟩
     · -- single-quoted
       subst hf
-      have harg : argText fmt l (some a) LYS_SINGLEQUOTED = printTextArg fmt l LYS_YPR_TEXT_SINGLEQUOTED a := by
+      have harg : argText fmt l kw.length (some a) LYS_SINGLEQUOTED = printTextArg fmt l LYS_YPR_TEXT_SINGLEQUOTED kw.length a := by
         simp [argText, LYS_SINGLEQUOTED]
       rw [harg]
-      obtain ⟨i1, e⟩ := text_sq_getArgument true fmt l LYS_YPR_TEXT_SINGLEQUOTED ind a t0 (by decide) (ychars_of_isYangText a hy) hnl
+      obtain ⟨i1, e⟩ := text_sq_getArgument true fmt l LYS_YPR_TEXT_SINGLEQUOTED kw.length ind a t0 (by decide) (ychars_of_isYangText a hy)
         htail.restOk k
       exact ⟨i1, 0, by rw [e]; simp [spaces]⟩
 
@@ -224,13 +224,13 @@ theorem afterKw_head (fmt : Bool) (l : Nat) (kw : Bytes) (arg : Option Bytes) (f
       have h1 : (LYS_DOUBLEQUOTED != 0) = true := by decide
       have h2 : (LYS_DOUBLEQUOTED &&& LYS_SINGLEQUOTED != 0) = false := by decide
       simp only [h1, h2, if_true, Bool.false_eq_true, if_false]
-      rw [printTextArg_block _ _ _ _ (by simp [flagSingleLine, LYS_YPR_TEXT_SINGLELINE])]
+      rw [printTextArg_block _ _ _ _ _ (by simp [flagSingleLine, LYS_YPR_TEXT_SINGLELINE])]
       exact ⟨10, _, rfl, Or.inr (Or.inl rfl)⟩
     · subst hf
       have h1 : (LYS_SINGLEQUOTED != 0) = true := by decide
       have h2 : (LYS_SINGLEQUOTED &&& LYS_SINGLEQUOTED != 0) = true := by decide
       simp only [h1, h2, if_true]
-      rw [printTextArg_block _ _ _ _ (by simp [flagSingleLine, LYS_YPR_TEXT_SINGLEQUOTED, LYS_YPR_TEXT_SINGLELINE])]
+      rw [printTextArg_block _ _ _ _ _ (by simp [flagSingleLine, LYS_YPR_TEXT_SINGLEQUOTED, LYS_YPR_TEXT_SINGLELINE])]
       exact ⟨10, _, rfl, Or.inr (Or.inl rfl)⟩
 
 theorem step_cons (s : Stmt) (ss : List Stmt) (hp : PStmt s) (hq : QStmts ss) : QStmts (s :: ss) := by
@@ -289,7 +289,7 @@ theorem step_mk (kw : Bytes) (arg : Option Bytes) (flags : Nat) (kids : List Stm
     subst hkids
     obtain ⟨i1, j, ha⟩ := arg_parse fmt l ind 0 kw arg flags true (59 :: 10 :: rest) (Or.inl ⟨rfl, _, rfl⟩) (by simpa using harg)
     refine ⟨i1 + j + 1, ?_⟩
-    have hin : afterKw fmt l (.mk kw arg flags []) rest = argText fmt l arg flags ++ (spaces 0 ++ 59 :: 10 :: rest) := by
+    have hin : afterKw fmt l (.mk kw arg flags []) rest = argText fmt l kw.length arg flags ++ (spaces 0 ++ 59 :: 10 :: rest) := by
       simp [afterKw, spaces]
     rw [hin, kwOf, parseStmt, ha]
     simp only []
@@ -301,7 +301,7 @@ theorem step_mk (kw : Bytes) (arg : Option Bytes) (flags : Nat) (kids : List Stm
       (by simpa [hk] using harg)
     obtain ⟨i2, hqs⟩ := hq fmt (incLevel l) (i1 + j + 1) (depth + 1) (indentOf fmt l).length f (10 :: rest) hwk (by omega) (by omega) hneed
     refine ⟨i2, ?_⟩
-    have hin : afterKw fmt l (.mk kw arg flags kids) rest = argText fmt l arg flags ++
+    have hin : afterKw fmt l (.mk kw arg flags kids) rest = argText fmt l kw.length arg flags ++
         (spaces 1 ++ 123 :: 10 :: (printStmts fmt (incLevel l) kids ++ (indentOf fmt l ++ 125 :: 10 :: rest))) := by
       simp [afterKw, hk, spaces]
     rw [hin, kwOf, parseStmt, ha]
